@@ -1209,11 +1209,31 @@ def main():
         "correspondence is sampled: agreement is established on the cases run",
     ]
     run.cov["trusted_base"] += [
+        "harness/translate_reads.py (ast call graph from the predict entry points; classification of the mentions of \"observed\")",
         "harness/c05.py, harness/synth_daily.py, harness/fitlib.py (generators, adapters, canonicalisation, segment lookup, skeleton extraction)",
         "pandas semantics re-specified in Model/Rows.v and Model/Dst.v (C07 / C06 tie them as well)",
         "oracle contracts of Model/HourlyFlow.v: regression returns 24 values per date; feature maps read weather and cluster label only",
     ]
-    run.check_proofs("Properties/C05.v", ["Proofs/HourlyFlowProofs.v", "Proofs/CounterfactualProofs.v"])
+    # step 0: which columns the predict paths read (fail-closed ast translator -> Generated/ObservedReadsGen.v)
+    import translate_reads
+    reads_ok = True
+    try:
+        ex = translate_reads.generate(run)
+        run.cov["observed_read_sites"] = {"observed_reads": len(ex["observed_reads"]), "frame_ops": len(ex["frame_ops"]),
+                                          "path_functions": {k: len(v) for k, v in ex["functions"].items()}}
+        run.sample({"stream": "translator", "observed_reads_hourly": [list(t[1:]) for t in ex["observed_reads"] if t[0] == "hourly"][:6]})
+    except translate_reads.TranslateError as e:
+        reads_ok = False
+        run.log("TRANSLATOR FAILED (broken tie):", e)
+        run.corr_failures.append({"stream": "translate_reads", "impl": str(e), "model": "Generated/ObservedReadsGen.v could not be regenerated"})
+    ok = run.check_proofs("Properties/C05.v", ["Proofs/HourlyFlowProofs.v", "Proofs/CounterfactualProofs.v"],
+                          generated=["Generated/ObservedReadsGen.v"] if reads_ok else [])
+    if not ok and reads_ok:
+        # name the sites that are not accounted for (the obligation C05_observed_reads_accounted / C05_frame_ops_accounted)
+        ans = run.coq_eval("From Coq Require Import String.\nFrom V Require Import Generated.ObservedReadsGen Model.ReadSites.\nOpen Scope string_scope.", "",
+                           "(unaccounted declared_reads observed_reads, unaccounted declared_frame_ops frame_ops)")
+        run.proof_log += "\nsites of the predict paths that Model/ReadSites.v does not account for:\n" + ans[-1500:]
+        run.log("read sites not accounted for:", ans[-600:])
     # Properties/C05.v imports Model/CounterfactualRun.v (and through it Model/CasesLib.v): what the cases need is built
 
     pz, got = detect_dst_policy()
